@@ -23,7 +23,7 @@ MAXPEND = 11          # 7 symbols can legitimately wait for a partner word (+ on
 
 # alphabets for the "free" configurations: (byte, is_K)
 ALPHABETS = {
-    "a3": [SKP, (0x3C, 0), (0xA5, 1)],                    # SKP, decoy (0x3C as data), some other K symbol
+    "a3": [SKP, (0x3C, 0), (0xBC, 1)],                    # SKP, decoy (0x3C as data), COM (K28.5: SKP with bit 7 set)
     "a4": [SKP, (0x3C, 0), (0x3D, 1), (0x00, 0)],         # + near-miss K symbol, + the reset value of the buffer
     "a4b": [SKP, (0xBC, 1), (0x7C, 1), (0xFF, 0)],        # other K28.x symbols (one-bit neighbours of K28.1)
 }
